@@ -220,6 +220,8 @@ func (w *walker) call(c *ssa.Call, idx int, d int) {
 			}
 		case "ssa:wrapnilchk":
 			w.visit(cc.Args[0], d)
+		case "len", "cap":
+			// a plain number that is not derived from any address
 		default:
 			w.add(Unknown)
 		}
